@@ -29,7 +29,7 @@ RULE = (
 )
 BOUNDS = {
     "quick": {"d": 2, "max_exec_per_tree": 2500, "d_mixed_mode_recheck": 1, "liveness_max_exec": 2600, "chars": ["a", "0"]},
-    "thorough": {"d": 3, "max_exec_per_tree": 12000, "d_mixed_mode_recheck": 2, "liveness_max_exec": 40000,
+    "thorough": {"d": 3, "max_exec_per_tree": 12000, "d_mixed_mode_recheck": 2, "liveness_max_exec": 120000,
                  "chars": ["a", "b", "0", "1", "\x00", "é", " "], "k2_grammar_d": 2},
 }
 # Measured (quick, unchanged tree): 281 documents, 100 841 executions, ~600 k tree nodes, all d<=2 trees completed (largest 1 222
